@@ -3,6 +3,7 @@ import BreezyVerif.Lemmas.C47Path
 import BreezyVerif.Lemmas.C47Join
 import BreezyVerif.Lemmas.C47Lines
 import BreezyVerif.Lemmas.C47Date
+import BreezyVerif.Lemmas.C47F64
 /-!
 C47 — theorems.  Every statement is for *all* inputs (path lists, byte strings,
 chunkings, nanosecond counts); nothing is bounded.
@@ -116,6 +117,79 @@ example : normalised [97, 47, 98, 99] = true ∧ splitpath [97, 47, 98, 99] = .o
 example : validComp [97] = true ∧ validComp [46, 46] = false ∧ validComp [] = false := by decide
 example : splitpath [97, 47, 46, 47, 47, 98] = .ok [[97], [98]] := by decide
 
+/-! ## byte strings ↔ component lists
+
+The selection / containment theorems above are stated on component lists; the
+code works on byte strings through `Path::components()`.  For every list of
+valid components the normalised spelling `c₁/c₂/…` is in the modelled domain and
+has exactly these components, so the theorems transfer to byte-string paths. -/
+
+/-- `components` inverts `"/".join` on valid components -/
+theorem components_joinSlash (cs : List Bytes) (h : ∀ c ∈ cs, validComp c = true) :
+    components (joinSlash cs) = cs := by
+  unfold components
+  cases cs with
+  | nil => simp [joinSlash, splitOn]
+  | cons c rest =>
+    have hs : ∀ x ∈ c :: rest, slash ∉ x := by
+      intro x hx
+      have := h x hx
+      simp only [validComp, decide_eq_true_eq] at this
+      exact this.2.1
+    rw [splitOn_joinSlash _ (by simp) hs]
+    apply List.filter_eq_self.mpr
+    intro x hx
+    have := h x hx
+    simp only [validComp, decide_eq_true_eq] at this
+    simp [this.1, this.2.2.1]
+
+/-- the normalised spelling of valid components is in the modelled domain -/
+theorem relOk_joinSlash (cs : List Bytes) (h : ∀ c ∈ cs, validComp c = true) :
+    relOk (joinSlash cs) = true := by
+  unfold relOk
+  cases cs with
+  | nil => simp [joinSlash, splitOn]
+  | cons c rest =>
+    have hs : ∀ x ∈ c :: rest, slash ∉ x := by
+      intro x hx
+      have := h x hx
+      simp only [validComp, decide_eq_true_eq] at this
+      exact this.2.1
+    have hc := h c (by simp)
+    simp only [validComp, decide_eq_true_eq] at hc
+    rw [splitOn_joinSlash _ (by simp) hs]
+    have hdd : [dot, dot] ∉ c :: rest := by
+      intro hm
+      have := h _ hm
+      simp [validComp] at this
+    have hhead : (joinSlash (c :: rest)).head? ≠ some slash := by
+      intro e
+      apply hc.2.1
+      cases c with
+      | nil => exact absurd rfl hc.1
+      | cons x xs =>
+        simp only [joinSlash, List.cons_append, List.head?_cons, Option.some.injEq] at e
+        simp [e]
+    simp [hhead, hc.2.2.1, hdd]
+
+/-- containment of byte-string paths is the component-prefix relation -/
+theorem inside_bytes (a b : List Bytes) (ha : ∀ c ∈ a, validComp c = true) (hb : ∀ c ∈ b, validComp c = true) :
+    isInside (components (joinSlash a)) (components (joinSlash b)) = true ↔ a <+: b := by
+  rw [components_joinSlash a ha, components_joinSlash b hb, isInside_iff]
+
+/-- the selection computed from the byte-string spellings is the selection of the component lists -/
+theorem mps_bytes (ps : List Path) (h : ∀ p ∈ ps, ∀ c ∈ p, validComp c = true) :
+    mps ((ps.map joinSlash).map components) = mps ps := by
+  congr 1
+  rw [List.map_map]
+  conv => rhs; rw [← List.map_id ps]
+  apply List.map_congr_left
+  intro p hp
+  simp [components_joinSlash p (h p hp)]
+
+example : components (joinSlash [[97], [46, 97], [97, 46]]) = [[97], [46, 97], [97, 46]] ∧
+    validComp [46, 97] = true ∧ relOk (joinSlash [[46, 97]]) = true := by decide
+
 /-! ## split_lines / chunks_to_lines -/
 
 /-- concatenating the lines gives the text back -/
@@ -154,15 +228,14 @@ example : c2lPy none [[97], [10, 98], [], [10]] = [[97, 10], [98, 10]] := by
 /-- the calendar used for `%Y-%m-%d` is inverted by the parser's day count, for every day -/
 theorem calendar_inverse (z : Int) : daysFromCivil (civilFromDays z) = z := days_civil z
 
-/-- **intended behaviour** (seconds taken from the floor, offset printed as
-sign/|hh|/|mm| — the proposed patch): for every nanosecond count and every
+/-- **whole-nanosecond timestamps**: for every nanosecond count and every
 whole-minute offset below 100 h whose local date has a four-digit year,
 unpacking the formatted string returns exactly the inputs. -/
 theorem date_roundtrip (nanos offset : Int)
     (hr : inRange (nanos / 1000000000 + offset) = true)
     (h60 : offset % 60 = 0) (hb : offset.natAbs < 360000) :
-    unpackHighres (formatHighresFixed nanos offset) = .ok (nanos, offset) := by
-  unfold formatHighresFixed
+    unpackHighres (formatHighresNs nanos offset) = .ok (nanos, offset) := by
+  unfold formatHighresNs
   have hf : (nanos % 1000000000).toNat < 1000000000 := by
     have := Int.emod_lt_of_pos nanos (show (0 : Int) < 1000000000 by omega)
     omega
@@ -176,72 +249,187 @@ theorem date_roundtrip (nanos offset : Int)
   rw [Int.toNat_of_nonneg h0]
   omega
 
-/-- outside the two defect families the code as written formats exactly like the intended behaviour -/
-theorem format_eq_fixed (nanos offset : Int)
-    (ho : 0 ≤ offset ∨ offset % 3600 = 0) (hn : 0 ≤ nanos ∨ nanos % 1000000000 = 0) :
-    formatHighres nanos offset = formatHighresFixed nanos offset := by
-  unfold formatHighres formatHighresFixed
-  have hs : tdiv nanos 1000000000 = nanos / 1000000000 := by
-    unfold tdiv; split <;> omega
-  rw [hs]
-  congr 1
-  by_cases hneg : offset < 0
-  · have h3600 : offset % 3600 = 0 := by omega
-    have e1 : tdiv offset 3600 = -((offset.natAbs / 3600 : Nat) : Int) := by
-      unfold tdiv; split <;> omega
-    have e2 : tmod (tdiv offset 60) 60 = 0 := by
-      unfold tmod tdiv; split <;> split <;> omega
-    have e3 : offset.natAbs / 60 % 60 = 0 := by omega
-    have hk0 : offset.natAbs / 3600 ≠ 0 := by omega
-    rw [e1, e2, e3]
-    generalize offset.natAbs / 3600 = k at *
-    unfold fmtPlus03 fmt02
-    have hk : (-(-((k : Nat) : Int))).toNat = k := by omega
-    rw [if_neg (by omega), if_pos (by omega), if_pos hneg, hk]
-    rfl
-  · have e1 : tdiv offset 3600 = ((offset.natAbs / 3600 : Nat) : Int) := by
-      unfold tdiv; split <;> omega
-    have e2 : tmod (tdiv offset 60) 60 = ((offset.natAbs / 60 % 60 : Nat) : Int) := by
-      unfold tmod tdiv; split <;> split <;> omega
-    rw [e1, e2]
-    generalize offset.natAbs / 3600 = k
-    generalize offset.natAbs / 60 % 60 = m
-    unfold fmtPlus03 fmt02
-    rw [if_pos (by omega), if_pos (by omega), if_neg hneg, Int.toNat_natCast, Int.toNat_natCast]
-    rfl
-
-/-- **partial** (the code as written): the round trip holds when the offset is
-non-negative or a whole number of hours *and* the timestamp is non-negative or
-a whole number of seconds.  Missing: negative offsets that are not whole hours
-and negative fractional timestamps — there the real code fails, see the two
-witnesses below (DESIGN §7-F11). -/
-theorem date_roundtrip_partial (nanos offset : Int)
-    (hr : inRange (nanos / 1000000000 + offset) = true)
-    (h60 : offset % 60 = 0) (hb : offset.natAbs < 360000)
-    (ho : 0 ≤ offset ∨ offset % 3600 = 0) (hn : 0 ≤ nanos ∨ nanos % 1000000000 = 0) :
-    unpackHighres (formatHighres nanos offset) = .ok (nanos, offset) := by
-  rw [format_eq_fixed nanos offset ho hn]
-  exact date_roundtrip nanos offset hr h60 hb
-
-/-- offset −01:30: the code prints ` -01-30`, which its own parser rejects -/
-theorem date_roundtrip_witness_offset :
-    unpackHighres (formatHighres 0 (-5400)) = .error .badOffset := by
-  decide +kernel
-
-/-- t = −1.5 s: the code prints the seconds of −1 with the fraction of −2 + 0.5 and reads back −0.5 s -/
-theorem date_roundtrip_witness_negfrac :
-    unpackHighres (formatHighres (-1500000000) 0) = .ok (-500000000, 0) := by
-  decide +kernel
-
 /-- non-vacuity: a modern timestamp with offset −05:30 satisfies the hypotheses of `date_roundtrip`,
 and a negative fractional one too -/
 example : inRange (1700000000123456789 / 1000000000 + (-19800)) = true ∧ (-19800 : Int) % 60 = 0 ∧
     (-19800 : Int).natAbs < 360000 := by decide +kernel
 example : inRange (-1500000000 / 1000000000 + 5400) = true := by decide +kernel
-example : unpackHighres (formatHighresFixed (-1500000000) (-5400)) = .ok (-1500000000, -5400) := by
+example : unpackHighres (formatHighresNs (-1500000000) (-5400)) = .ok (-1500000000, -5400) := by
   decide +kernel
-/-- non-vacuity of `date_roundtrip_partial`: offset −02:00, negative whole-second time -/
-example : ((0 : Int) ≤ -7200 ∨ (-7200 : Int) % 3600 = 0) ∧ ((0 : Int) ≤ -3000000000 ∨ (-3000000000 : Int) % 1000000000 = 0) ∧
-    inRange (-3000000000 / 1000000000 + (-7200)) = true := by decide +kernel
+
+/-! ### arbitrary f64 timestamps `t = num / 2^k` -/
+
+/-- the nanosecond count the f64 `num / 2^k` rounds to: whole seconds from the
+floor plus the 9-digit rounding of the (f64) fraction; the rounding may reach
+the next second -/
+def roundedNanos (num : Int) (k : Nat) : Int :=
+  num / ((2 ^ k : Nat) : Int) * 1000000000 + (fracUnits num k : Nat)
+
+theorem fracUnits_le (num : Int) (k : Nat) : fracUnits num k ≤ 1000000000 := by
+  unfold fracUnits fracF64
+  apply round9_le
+  apply roundF64_le
+  have hD : (0 : Int) < ((2 ^ k : Nat) : Int) := by
+    have : 0 < 2 ^ k := Nat.pos_of_ne_zero (by simp)
+    omega
+  have := Int.emod_lt_of_pos num hD
+  have := Int.emod_nonneg num (Int.ne_of_gt hD)
+  omega
+
+/-- the code as written formats an f64 like the whole-nanosecond timestamp
+"floor seconds + (rounded fraction mod 1 s)" -/
+theorem formatF64_eq_ns (num : Int) (k : Nat) (offset : Int) :
+    formatHighresF64 num k offset =
+      formatHighresNs (num / ((2 ^ k : Nat) : Int) * 1000000000 + ((fracUnits num k % 1000000000 : Nat) : Int)) offset := by
+  unfold formatHighresF64 formatHighresNs offsetStr
+  generalize num / ((2 ^ k : Nat) : Int) = fl
+  have hm : fracUnits num k % 1000000000 < 1000000000 := Nat.mod_lt _ (by omega)
+  generalize fracUnits num k % 1000000000 = m at *
+  have e1 : (fl * 1000000000 + (m : Int)) / 1000000000 = fl := by omega
+  have e2 : ((fl * 1000000000 + (m : Int)) % 1000000000).toNat = m := by omega
+  rw [e1, e2]
+
+/-- the patched formatter formats an f64 like the whole-nanosecond timestamp it rounds to -/
+theorem formatF64Carry_eq_ns (num : Int) (k : Nat) (offset : Int) :
+    formatHighresF64Carry num k offset = formatHighresNs (roundedNanos num k) offset := by
+  unfold formatHighresF64Carry formatHighresNs offsetStr roundedNanos
+  generalize num / ((2 ^ k : Nat) : Int) = fl
+  have hle := fracUnits_le num k
+  generalize fracUnits num k = u at *
+  have e1 : (fl * 1000000000 + (u : Int)) / 1000000000 = fl + (if 1000000000 ≤ u then 1 else 0) := by
+    split <;> omega
+  have e2 : ((fl * 1000000000 + (u : Int)) % 1000000000).toNat = u % 1000000000 := by omega
+  rw [e1, e2]
+
+/-- **partial** (the code as written, any finite f64): when the printed
+fraction does not round up to `1.000000000`, unpacking the formatted string
+returns the timestamp rounded to 9 digits, and the offset.  Missing: fractions
+≥ 1 − ½·10⁻⁹ (see `date_f64_carry_loses_second` and the witnesses). -/
+theorem date_roundtrip_f64_partial (num : Int) (k : Nat) (offset : Int)
+    (hnc : fracUnits num k < 1000000000)
+    (hr : inRange (num / ((2 ^ k : Nat) : Int) + offset) = true)
+    (h60 : offset % 60 = 0) (hb : offset.natAbs < 360000) :
+    unpackHighres (formatHighresF64 num k offset) = .ok (roundedNanos num k, offset) := by
+  rw [formatF64_eq_ns, Nat.mod_eq_of_lt hnc]
+  apply date_roundtrip _ _ _ h60 hb
+  have : (num / ((2 ^ k : Nat) : Int) * 1000000000 + ((fracUnits num k : Nat) : Int)) / 1000000000
+      = num / ((2 ^ k : Nat) : Int) := by omega
+  rw [this]; exact hr
+
+/-- **the defect family, in general**: whenever the fraction is printed as
+`1.000000000`, the code as written unpacks to the *floor* second — one full
+second below the value the timestamp rounds to. -/
+theorem date_f64_carry_loses_second (num : Int) (k : Nat) (offset : Int)
+    (hc : fracUnits num k = 1000000000)
+    (hr : inRange (num / ((2 ^ k : Nat) : Int) + offset) = true)
+    (h60 : offset % 60 = 0) (hb : offset.natAbs < 360000) :
+    unpackHighres (formatHighresF64 num k offset) = .ok (roundedNanos num k - 1000000000, offset) := by
+  rw [formatF64_eq_ns, hc]
+  have e : roundedNanos num k - 1000000000 =
+      num / ((2 ^ k : Nat) : Int) * 1000000000 + ((1000000000 % 1000000000 : Nat) : Int) := by
+    unfold roundedNanos; rw [hc]; omega
+  rw [e]
+  apply date_roundtrip _ _ _ h60 hb
+  have : (num / ((2 ^ k : Nat) : Int) * 1000000000 + ((1000000000 % 1000000000 : Nat) : Int)) / 1000000000
+      = num / ((2 ^ k : Nat) : Int) := by omega
+  rw [this]; exact hr
+
+/-- which timestamps are in the defect family: the (f64) fraction is at least 1 − ½·10⁻⁹ -/
+theorem carry_iff (num : Int) (k : Nat) :
+    fracUnits num k = 1000000000 ↔
+      2 * (1000000000 * 2 ^ k) ≤ 2 * (fracF64 num k * 1000000000) + 2 ^ k := by
+  unfold fracUnits
+  apply round9_carry_iff
+  unfold fracF64
+  apply roundF64_le
+  have hD : (0 : Int) < ((2 ^ k : Nat) : Int) := by
+    have : 0 < 2 ^ k := Nat.pos_of_ne_zero (by simp)
+    omega
+  have := Int.emod_lt_of_pos num hD
+  have := Int.emod_nonneg num (Int.ne_of_gt hD)
+  omega
+
+/-- **with the carry** (the proposed patch): for every finite f64, unpacking the
+formatted string returns the timestamp rounded to 9 digits, and the offset. -/
+theorem date_roundtrip_f64_carry (num : Int) (k : Nat) (offset : Int)
+    (hr : inRange (roundedNanos num k / 1000000000 + offset) = true)
+    (h60 : offset % 60 = 0) (hb : offset.natAbs < 360000) :
+    unpackHighres (formatHighresF64Carry num k offset) = .ok (roundedNanos num k, offset) := by
+  rw [formatF64Carry_eq_ns]
+  exact date_roundtrip _ _ hr h60 hb
+
+/-- the 9-digit rounding is within half a nanosecond of the f64 fraction -/
+theorem fracUnits_close (num : Int) (k : Nat) :
+    2 * (fracUnits num k * 2 ^ k) ≤ 2 * (fracF64 num k * 1000000000) + 2 ^ k ∧
+    2 * (fracF64 num k * 1000000000) ≤ 2 * (fracUnits num k * 2 ^ k) + 2 ^ k :=
+  round9_close k (fracF64 num k)
+
+/-- for a non-negative f64 (mantissa below 2^53) the subtraction `t - t.floor()` is exact -/
+theorem fracF64_exact (num : Int) (k : Nat) (h0 : 0 ≤ num) (h53 : num < 2 ^ 53) :
+    (fracF64 num k : Int) = num % ((2 ^ k : Nat) : Int) := by
+  unfold fracF64
+  have hD : (0 : Int) < ((2 ^ k : Nat) : Int) := by
+    have : 0 < 2 ^ k := Nat.pos_of_ne_zero (by simp)
+    omega
+  have h1 := Int.emod_nonneg num (Int.ne_of_gt hD)
+  have h2 : num % ((2 ^ k : Nat) : Int) ≤ num := by
+    have e := Int.mul_ediv_add_emod num ((2 ^ k : Nat) : Int)
+    have := Int.mul_nonneg (Int.le_of_lt hD) (Int.ediv_nonneg h0 (Int.le_of_lt hD))
+    omega
+  rw [roundF64_small]
+  · omega
+  · have : ((num % ((2 ^ k : Nat) : Int)).toNat : Int) < 2 ^ 53 := by omega
+    exact_mod_cast this
+
+/-- end to end for non-negative timestamps: the value read back (when there is
+no carry, by `date_roundtrip_f64_partial`; with the patch always) is within
+half a nanosecond of the exact value of the f64 -/
+theorem roundedNanos_close (num : Int) (k : Nat) (h0 : 0 ≤ num) (h53 : num < 2 ^ 53) :
+    2 * (roundedNanos num k * ((2 ^ k : Nat) : Int) - num * 1000000000).natAbs ≤ 2 ^ k := by
+  have hex := fracF64_exact num k h0 h53
+  obtain ⟨c1, c2⟩ := fracUnits_close num k
+  have e := Int.mul_ediv_add_emod num ((2 ^ k : Nat) : Int)
+  unfold roundedNanos
+  rw [← hex] at e
+  generalize fracUnits num k = U at *
+  generalize fracF64 num k = n at *
+  generalize 2 ^ k = D at *
+  generalize num / (D : Int) = fl at *
+  rw [← e]
+  have h : (fl * 1000000000 + (U : Int)) * (D : Int) - ((D : Int) * fl + (n : Int)) * 1000000000
+      = (U : Int) * D - (n : Int) * 1000000000 := by
+    rw [Int.add_mul, Int.add_mul, Int.mul_right_comm fl 1000000000 (D : Int), Int.mul_comm (D : Int) fl]
+    omega
+  rw [h]
+  rw [← Int.natCast_mul]
+  generalize U * D = A at *
+  omega
+
+/-- t = 2097152.9999999995 (= 4503601774854143 / 2^31): printed with fraction
+`.000000000` in second 2097152, read back as 2097152.0 — one second is lost -/
+theorem date_f64_witness_carry :
+    fracUnits 4503601774854143 31 = 1000000000 ∧
+    unpackHighres (formatHighresF64 4503601774854143 31 0) = .ok (2097152000000000, 0) ∧
+    unpackHighres (formatHighresF64Carry 4503601774854143 31 0) = .ok (2097153000000000, 0) := by
+  decide +kernel
+
+/-- t = 0.9999999996 (= 140737488299033 / 2^47) is read back as 0.0 -/
+theorem date_f64_witness_carry_small :
+    unpackHighres (formatHighresF64 140737488299033 47 0) = .ok (0, 0) := by
+  decide +kernel
+
+/-- t = −1e-20: `t - t.floor()` is already 1.0 in f64 (IEEE rounding of 1 − 1e-20); read back as −1.0 -/
+theorem date_f64_witness_tiny_negative :
+    fracF64 (-6646139978924579) 119 = 2 ^ 119 ∧
+    unpackHighres (formatHighresF64 (-6646139978924579) 119 0) = .ok (-1000000000, 0) := by
+  decide +kernel
+
+/-- non-vacuity of `date_roundtrip_f64_partial`: t = −0.3 at offset +05:30, and a 9-digit tie (1/1024, ties to even) -/
+example : fracUnits (-5404319552844595) 54 = 700000000 ∧
+    inRange (-5404319552844595 / ((2 ^ 54 : Nat) : Int) + 19800) = true := by decide +kernel
+example : fracUnits 1 10 = 976562 ∧ fracUnits 3 10 = 2929688 := by decide +kernel
+/-- non-vacuity of `fracF64_exact` / of the hypotheses of `date_f64_carry_loses_second` -/
+example : (0 : Int) ≤ 4503601774854143 ∧ (4503601774854143 : Int) < 2 ^ 53 ∧
+    inRange (4503601774854143 / ((2 ^ 31 : Nat) : Int) + 0) = true := by decide +kernel
 
 end BreezyVerif.C47
